@@ -284,11 +284,32 @@ class Builder:
             if ho < 1 or wo < 1:
                 return None
             oshape = (cout, ho, wo)
+            nonsq = None
+            if self.opts.get('nonsquare') and rng.random() < 0.2:
+                # per-axis geometry: non-square kernel, unequal dilation / padding / stride
+                same = pad == 'same'
+                kh, kw = rng.choice([(1, 3), (3, 1), (3, 5), (5, 3), (1, 5)] +
+                                    ([] if same else [(2, 3), (3, 2)]))
+                dh, dw_ = rng.choice([(1, 1), (1, 2), (2, 1)])
+                sh, sw = (1, 1) if s == 1 else rng.choice([(s, 1), (1, s), (s, s)])
+                ph = (kh - 1) * dh // 2 if same else rng.choice([0, (kh - 1) * dh // 2])
+                pw = (kw - 1) * dw_ // 2 if same else rng.choice([0, (kw - 1) * dw_ // 2])
+                ho2 = (H + 2 * ph - dh * (kh - 1) - 1) // sh + 1
+                wo2 = (W + 2 * pw - dw_ * (kw - 1) - 1) // sw + 1
+                if ho2 >= 1 and wo2 >= 1:
+                    nonsq = {'kshape': [kh, kw], 'dshape': [dh, dw_], 'pshape': [ph, pw],
+                             's': [sh, sw]}
+                    oshape = (cout, ho2, wo2)
+                    pad = 0
         name = name or self.lname('dw' if dw else 'conv')
         out = self.fresh()
         op = {'op': 'conv', 'name': name, 'src': src, 'out': out, 'cin': cin, 'cout': cout,
               'k': k, 'd': d, 's': s, 'bias': bias, 'pad': pad, 'dw': dw}
-        if self.dim == 2 and self.opts.get('pmodes') and k % 2 == 1:
+        if self.dim == 2 and nonsq:
+            op.update(nonsq)
+            s = max(nonsq['s'])
+            self.features.add('per-axis-geometry')
+        if self.dim == 2 and self.opts.get('pmodes') and k % 2 == 1 and 'kshape' not in op:
             # non-zero padding modes (only where the padding is non-empty and fits the input)
             eff = d * (k - 1) // 2 if pad == 'same' else pad
             if 0 < eff < min(shp[1], shp[2]) and rng.random() < 0.4:
@@ -650,6 +671,8 @@ def gen_program(rng, family=None, depth=None, opts=None):
     else:
         c0, H, W = rng.randint(1, 3), rng.randint(5, 10), rng.randint(5, 10)
         inputs = [[c0, H, W]]
+    opts = dict(opts)
+    opts.setdefault('nonsquare', True)
     b = Builder(rng, family, opts)
     b.shapes['x0'] = tuple(inputs[0])
     b.origin['x0'] = 'input'
